@@ -21,6 +21,7 @@ import (
 	"testing/synctest"
 	"time"
 
+	"github.com/libp2p/go-libp2p/core/peer"
 	"github.com/libp2p/go-libp2p/core/peerstore"
 	"github.com/libp2p/go-libp2p/x/verif/vrep"
 
@@ -394,7 +395,7 @@ func TestVerifC13Life(t *testing.T) {
 type c13StableSnap c13Snap
 
 func c13SnapStable(f *c13Fix, w *c13World) c13StableSnap {
-	s := c13TakeSnap(f.ps, []peer_ID{w.L.ID, w.O.ID, w.O2.ID, w.X.ID, w.Relay.ID})
+	s := c13TakeSnap(f.ps, []peer.ID{w.L.ID, w.O.ID, w.O2.ID, w.X.ID, w.Relay.ID})
 	drop := map[string]bool{
 		string(ma.StringCast("/ip4/7.7.7.2/tcp/1").Bytes()): true,
 		string(ma.StringCast("/ip4/7.7.7.3/tcp/1").Bytes()): true,
